@@ -50,7 +50,9 @@ func runPositiveControls() {
 	}
 	old := loadMinFuncs
 	loadMinFuncs = 10
+	renameNormalisation = false // the fixture is its own small program, not a renamed goat
 	p := loadProg(dir, "", "")
+	renameNormalisation = true
 	loadMinFuncs = old
 	c := &Ctx{p: p, prop: "CONTROL"}
 	all := func(*ssa.Function) bool { return true }
